@@ -414,6 +414,13 @@ fn accessor_catalog() -> Vec<AccessorSpec> {
                 v.push(AccessorSpec { mode: Mode::Case, fab_idx, id, cats });
             }
         }
+        // node ids whose low 32 bits read like a CASE authenticated tag (identifier CAT_A, version 2 / 9):
+        // a tag subject of an entry is matched by the accessor's tags only, never by its node id
+        for id in [0x0000_0000_0000_0000u64 | ((CAT_A as u64) << 16) | 2, 0x1234_5678_0000_0000u64 | ((CAT_A as u64) << 16) | 9] {
+            for cats in [vec![], vec![(CAT_B, 1)]] {
+                v.push(AccessorSpec { mode: Mode::Case, fab_idx, id, cats });
+            }
+        }
         for g in [GROUP_G, GROUP_H] {
             v.push(AccessorSpec { mode: Mode::Group, fab_idx, id: g as u64, cats: vec![] });
         }
